@@ -154,6 +154,16 @@ func genDirCase(t *rapid.T) *DirCase {
 			}
 		}
 	}
+	if rapid.IntRange(0, 11).Draw(t, "manyBad") == 7 {
+		// many files that fail in one run (whatever the tool collects about failures is bounded somewhere)
+		for i, nb := 0, rapid.SampledFrom([]int{9, 16, 17, 33, 70}).Draw(t, "nBad"); i < nb; i++ {
+			name := fmt.Sprintf("%s%02d_bad.go", []string{"a", "m", "z"}[i%3], i)
+			if !used[name] {
+				used[name] = true
+				c.Entries = append(c.Entries, DirEntry{Kind: "broken", Name: name, Text: "package pb\n\ntype T" + fmt.Sprint(i) + " struct {\n\tA int `json:\"a\"` // @tag valid:\"x\"\n"})
+			}
+		}
+	}
 	modes := []string{"lib-each"}
 	if haveCLI() {
 		modes = []string{"cli-d", "cli-d", "cli-p", "cli-f-each", "lib-each"}
